@@ -2,7 +2,8 @@
   Multi-run histories WITH cleanup (C06 × C07): the invariant of `FlwCleanupInv` carried across
   `.restart c` operations (a new logger on the same directory, with or without `append`; buffer
   capacity, symlink and suffix setting free per run, same rotation configuration), for all four
-  namings (`timestampsDirect` with appending restarts: under the guard against finding D22).
+  namings (no guard for `timestampsDirect` with appending restarts since the `fix:` of finding D22:
+  such a run continues the newest file, `appendTarget_direct`).
 
   The description of the directory (`CDir2`) differs from `FlwC.CDir` in three points:
   * the compression pattern no longer refers to the suffix setting of the current run (which
@@ -832,7 +833,7 @@ def initPre2 (s : St) (r : RotCfg) (now : Nat) : Dir × Infix × Nat × Nat :=
   match r.naming with
   | .timestampsDirect =>
     if s.cfg.append then
-      (s.dir, .ts ((latestStamp s.dir).getD now) none, 0, (latestStamp s.dir).getD now)
+      (s.dir, appendTarget s.dir ((latestStamp s.dir).getD now), 0, (latestStamp s.dir).getD now)
     else (s.dir, collisionFree s.dir now, 0, now)
   | .timestamps =>
     if s.cfg.append then (s.dir, .cur, 0, createdOr s.dir curN now)
@@ -1129,33 +1130,44 @@ theorem latestStamp_direct {L : Lim} {idx stamp : Nat} {d : Dir} {h : FName} {f 
         congr 1
         omega
 
-/-- … and under the guard against finding D22 the current file carries the BASE name of its
-    second -/
-theorem handle_base_of_guard {L : Lim} {idx stamp : Nat} {d : Dir} {h : FName} {f : File}
+/-- … and the file an appending run continues (`appendTarget`, since the `fix:` of finding D22) is
+    the current file, whether it carries the base name of its second or a `.restart-N` name:
+    it is plain, and every other file with its stamp has a smaller key -/
+theorem appendTarget_direct {L : Lim} {idx stamp : Nat} {d : Dir} {h : FName} {f : File}
     {C : List E} {closed : List (List Nat)}
-    (hd : CDir2 L .timestampsDirect idx stamp d h f C closed) (hg : FV.FlwB.NewestIsBase d) :
-    h = ⟨some (.ts stamp none), false⟩ := by
+    (hd : CDir2 L .timestampsDirect idx stamp d h f C closed) :
+    h = ⟨some (appendTarget d stamp), false⟩ := by
   have hH := hd.handle
   simp only [HandleOK] at hH
   obtain ⟨r0, hH⟩ := hH
-  cases r0 with
-  | none => exact hH
-  | some r1 =>
-    exfalso
-    have hmem : (h, f) ∈ ents d := hd.perm.symm.subset (by simp)
-    obtain ⟨k', h1, h2⟩ := hg (h, f) hmem stamp r1 (by rw [hH])
-    rw [latestStamp_direct hd] at h1
-    cases h1
-    omega
+  have hmem : (h, f) ∈ ents d := hd.perm.symm.subset (by simp)
+  rw [hH] at hmem
+  rw [FV.FlwB.appendTarget_eq d stamp r0 f hmem, hH]
+  intro e he _ r hifx
+  rcases List.mem_cons.1 (hd.perm.subset he) with rfl | heC
+  · rw [hH] at hifx
+    simp only [Option.some.injEq, Infix.ts.injEq, true_and] at hifx
+    exact ⟨r, hifx, Nat.le_refl _⟩
+  · obtain ⟨i, hi1, hb⟩ := hd.below e heC
+    simp only [Below] at hb
+    obtain ⟨k', r'', rfl, -, hlt⟩ := hb
+    rw [hifx] at hi1
+    cases hi1
+    rw [hH] at hlt
+    cases r0 with
+    | none => simp [nkey, Infix.key, keyLt] at hlt
+    | some r1 =>
+      refine ⟨r1, rfl, ?_⟩
+      simp [nkey, Infix.key, keyLt] at hlt
+      omega
 
 /-- **initialisation of a new run on what earlier runs left** (`g`: the flushed writer of the
     previous run, kept as a ghost). Without `append` the current file found is closed under a
     fresh name and cleanup runs: exactly a rotation. With `append` the current file is
-    continued. (`timestampsDirect` with `append`: under the guard against finding D22.) -/
+    continued (`timestampsDirect`: also if it is a `.restart-N` sibling, `appendTarget_direct`). -/
 theorem init_ghost {r : RotCfg} (s : St) (g : Active)
     (a : Abs) (now : Nat) (hrot : s.cfg.rot = some r) (hg : g.pending = [])
-    (hi : RInv r s.dir g a) (hst : g.stamp ≤ now)
-    (htsd : r.naming = .timestampsDirect → s.cfg.append = true → FV.FlwB.NewestIsBase s.dir) :
+    (hi : RInv r s.dir g a) (hst : g.stamp ≤ now) :
     ∃ s', initState s now noFaults = (s', true) ∧ s'.cfg = s.cfg ∧
       Live r now s' (reinit (some r) s.cfg.append a now) := by
   obtain ⟨f, C, hd, hcur, hfc⟩ := hi.dir
@@ -1311,11 +1323,11 @@ theorem init_ghost {r : RotCfg} (s : St) (g : Active)
       have hd' := hd
       rw [hnm] at hd'
       have hls : latestStamp s.dir = some g.stamp := latestStamp_direct hd'
-      have hbase : g.handle = ⟨some (.ts g.stamp none), false⟩ :=
-        handle_base_of_guard hd' (htsd hnm happ)
+      have hbase : g.handle = ⟨some (appendTarget s.dir g.stamp), false⟩ :=
+        appendTarget_direct hd'
       rw [hnm] at hb hH
       simp only [Below, HandleOK] at hb hH
-      refine tail (.ts g.stamp none) 0 g.stamp hbase (by simp [initPre2, hnm, happ, hls])
+      refine tail (appendTarget s.dir g.stamp) 0 g.stamp hbase (by simp [initPre2, hnm, happ, hls])
         (by rw [hnm]; exact hH) ?_ (by rw [hnm]; intro h; cases h) hst
         (fun hn => absurd hn (by rw [hnm]; exact not_numNaming_tsd))
         (fun h => by rcases h with h | ⟨h, -⟩ <;> rw [hnm] at h <;> cases h)
@@ -1326,12 +1338,10 @@ theorem init_ghost {r : RotCfg} (s : St) (g : Active)
 /-! ### the multi-run machine -/
 
 /-- between a restart and the next write: nothing on disk yet, or what the (flushed) writer `g`
-    of the previous run left; an appending `timestampsDirect` run that finds files finds the
-    newest one under the base name of its second (guard against finding D22) -/
+    of the previous run left -/
 def Ghost (r : RotCfg) (t : Nat) (s : St) (a : Abs) : Prop :=
   (s.dir = [] ∧ a = Abs.init) ∨
-  ∃ g : Active, g.pending = [] ∧ RInv r s.dir g a ∧ g.stamp ≤ t ∧
-    (r.naming = .timestampsDirect → s.cfg.append = true → FV.FlwB.NewestIsBase s.dir)
+  ∃ g : Active, g.pending = [] ∧ RInv r s.dir g a ∧ g.stamp ≤ t
 
 /-- the invariant of multi-run histories with cleanup; the abstract state is the one of C06
     (`FlwA.MAbs`: the log WITHOUT cleanup, in which a restart + first write acts as `reinit`) -/
@@ -1342,9 +1352,9 @@ def MInv (r : RotCfg) (t : Nat) (s : St) (ma : MAbs) : Prop :=
 
 theorem Ghost.mono {r : RotCfg} {t t' : Nat} {s : St} {a : Abs} (h : Ghost r t s a)
     (ht : t ≤ t') : Ghost r t' s a := by
-  rcases h with h | ⟨g, h1, h2, h3, h4⟩
+  rcases h with h | ⟨g, h1, h2, h3⟩
   · exact Or.inl h
-  · exact Or.inr ⟨g, h1, h2, Nat.le_trans h3 ht, h4⟩
+  · exact Or.inr ⟨g, h1, h2, Nat.le_trans h3 ht⟩
 
 theorem Live.mono {r : RotCfg} {t t' : Nat} {s : St} {a : Abs} (h : Live r t s a)
     (ht : t ≤ t') : Live r t' s a := by
@@ -1358,7 +1368,7 @@ theorem write_unmounted {r : RotCfg} (s : St) (a : Abs)
     (writeBuffer s b now noFaults).1.cfg = s.cfg ∧
     Live r now (writeBuffer s b now noFaults).1
       (Abs.step (some r) (reinit (some r) s.cfg.append a now) (.write b) now) := by
-  rcases hg with ⟨hd, ha⟩ | ⟨g, hgp, hI, hst, htsd⟩
+  rcases hg with ⟨hd, ha⟩ | ⟨g, hgp, hI, hst⟩
   · subst ha
     obtain ⟨s1, hin, hc1, hl1⟩ := init_empty s now hrot hd
     obtain ⟨act1, ha1, -⟩ := id hl1
@@ -1370,7 +1380,7 @@ theorem write_unmounted {r : RotCfg} (s : St) (a : Abs)
     obtain ⟨h1, h2⟩ := writeBuffer_live s1 _ b now now (by rw [hc1]; exact hrot) hl1
       (Nat.le_refl _)
     exact ⟨h1.trans hc1, h2⟩
-  · obtain ⟨s1, hin, hc1, hl1⟩ := init_ghost s g a now hrot hgp hI (Nat.le_trans hst ht) htsd
+  · obtain ⟨s1, hin, hc1, hl1⟩ := init_ghost s g a now hrot hgp hI (Nat.le_trans hst ht)
     obtain ⟨act1, ha1, -⟩ := id hl1
     rw [writeBuffer_init s s1 act1 b now hnone hin ha1]
     obtain ⟨h1, h2⟩ := writeBuffer_live s1 _ b now now (by rw [hc1]; exact hrot) hl1
@@ -1381,9 +1391,7 @@ theorem write_unmounted {r : RotCfg} (s : St) (a : Abs)
 theorem mstep_inv {r : RotCfg} (s : St) (ma : MAbs)
     (t : Nat) (op : Op) (now : Nat) (hi : MInv r t s ma)
     (hop : FV.FlwA.Allowed (some r) op)
-    (hfl : FV.FlwA.isRestart op = true → Flushed s) (ht : op.usesClock = true → t ≤ now)
-    (htsd : r.naming = .timestampsDirect → ∀ c, op = .restart c → c.append = true →
-      FV.FlwB.NewestIsBase s.dir) :
+    (hfl : FV.FlwA.isRestart op = true → Flushed s) (ht : op.usesClock = true → t ≤ now) :
     MInv r (if op.usesClock then now else t) (step s op now noFaults).1
       (ma.step (some r) op now) := by
   obtain ⟨hrot, happ, hi⟩ := hi
@@ -1453,10 +1461,10 @@ theorem mstep_inv {r : RotCfg} (s : St) (ma : MAbs)
     refine ⟨hcr, rfl, Or.inr ⟨rfl, rfl, ?_⟩⟩
     rcases hi with ⟨hl, act, hact, hI, hdir, hst⟩ | ⟨hl, hnone, hg⟩
     · have hp := hfl rfl act hact
-      exact Or.inr ⟨act, hp, hI, hst, fun hn ha => htsd hn c rfl ha⟩
-    · rcases hg with h | ⟨g, h1, h2, h3, h4⟩
+      exact Or.inr ⟨act, hp, hI, hst⟩
+    · rcases hg with h | ⟨g, h1, h2, h3⟩
       · exact Or.inl h
-      · exact Or.inr ⟨g, h1, h2, h3, fun hn ha => htsd hn c rfl ha⟩
+      · exact Or.inr ⟨g, h1, h2, h3⟩
   | reset _ =>
     rcases hop with h | ⟨c', h1, -⟩
     · cases h
@@ -1474,78 +1482,24 @@ theorem mstep_inv {r : RotCfg} (s : St) (ma : MAbs)
     · cases h
     · cases h1
 
-/-- the restarts of a `timestampsDirect` history do not append (finding D22 is about those that do) -/
-def TsdNoAppend (r : RotCfg) (ops : List (Op × Nat × Faults)) : Prop :=
-  r.naming = .timestampsDirect → ∀ o ∈ ops, ∀ c, o.1 = .restart c → c.append = false
-
-/-- guard against finding D22: whenever a run with `append` is started, the newest stamp in the
-    directory has no `.restart-N` sibling -/
-def TsdGuardFrom (s : St) (ops : List (Op × Nat × Faults)) : Prop :=
-  ∀ pre c now fl post, ops = pre ++ (Op.restart c, now, fl) :: post → c.append = true →
-    FV.FlwB.NewestIsBase (runOps s pre).dir
-
-/-- the premise on `timestampsDirect` histories (nothing is required of the other namings) -/
-def TsdGuard (cfg : Cfg) (r : RotCfg) (ops : List (Op × Nat × Faults)) : Prop :=
-  r.naming = .timestampsDirect → TsdGuardFrom (init cfg []) ops
-
-theorem tsdGuard_of_noAppend {cfg : Cfg} {r : RotCfg} {ops : List (Op × Nat × Faults)}
-    (h : TsdNoAppend r ops) : TsdGuard cfg r ops := by
-  intro hn pre c now fl post hops hc
-  have := h hn (Op.restart c, now, fl) (by rw [hops]; simp) c rfl
-  rw [this] at hc
-  cases hc
-
-theorem tsdGuard_of_not_tsd {cfg : Cfg} {r : RotCfg} {ops : List (Op × Nat × Faults)}
-    (h : r.naming ≠ .timestampsDirect) : TsdGuard cfg r ops :=
-  fun hn => absurd hn h
-
-/-- a decidable sufficient check for the guard -/
-def tsdGuardB (s : St) : List (Op × Nat × Faults) → Bool
-  | [] => true
-  | o :: rest =>
-    (match o.1 with
-      | .restart c => !c.append || FV.FlwB.newestIsBaseB s.dir
-      | _ => true) && tsdGuardB (step s o.1 o.2.1 o.2.2).1 rest
-
-theorem tsdGuardB_sound : ∀ (ops : List (Op × Nat × Faults)) (s : St), tsdGuardB s ops = true →
-    TsdGuardFrom s ops := by
-  intro ops
-  induction ops with
-  | nil => intro s _ pre c now fl post h; simp at h
-  | cons o ops ih =>
-    intro s h pre c now fl post hops hca
-    simp only [tsdGuardB, Bool.and_eq_true] at h
-    cases pre with
-    | nil =>
-      simp only [List.nil_append, List.cons.injEq] at hops
-      have h1 := h.1
-      rw [hops.1] at h1
-      simp only [hca, Bool.not_true, Bool.false_or] at h1
-      exact FV.FlwB.newestIsBaseB_sound _ h1
-    | cons o' pre' =>
-      simp only [List.cons_append, List.cons.injEq] at hops
-      obtain ⟨rfl, hops⟩ := hops
-      exact ih _ h.2 pre' c now fl post hops hca
-
 theorem mrun_inv {r : RotCfg}
     (ops : List (Op × Nat × Faults)) :
     ∀ (s : St) (ma : MAbs) (t : Nat), MInv r t s ma →
       (∀ o ∈ ops, FV.FlwA.Allowed (some r) o.1 ∧ o.2.2 = noFaults) → Monotone ops →
-      FV.FlwA.FlushedBeforeRestart ops → (r.naming = .timestampsDirect → TsdGuardFrom s ops) →
+      FV.FlwA.FlushedBeforeRestart ops →
       (∀ o, ops.head? = some o → FV.FlwA.isRestart o.1 = true → Flushed s) →
       (∀ o ∈ ops, o.1.usesClock = true → t ≤ o.2.1) →
       ∃ t', MInv r t' (runOps s ops) (MAbs.run (some r) ma ops) := by
   induction ops with
-  | nil => intro s ma t hi _ _ _ _ _ _; exact ⟨t, hi⟩
+  | nil => intro s ma t hi _ _ _ _ _; exact ⟨t, hi⟩
   | cons o os ih =>
-    intro s ma t hi hpl hmono hfbr htsd hhead hlb
+    intro s ma t hi hpl hmono hfbr hhead hlb
     obtain ⟨op, now, fl⟩ := o
     obtain ⟨hp, hfl⟩ := hpl (op, now, fl) (List.mem_cons_self)
     simp only at hp hfl
     subst hfl
     have hstep := mstep_inv s ma t op now hi hp (hhead _ rfl)
       (hlb (op, now, noFaults) (List.mem_cons_self))
-      (fun hn c hop hca => htsd hn [] c now noFaults os (by rw [hop]; rfl) hca)
     have hrun : runOps s ((op, now, noFaults) :: os) =
         runOps (step s op now noFaults).1 os := rfl
     have habs : MAbs.run (some r) ma ((op, now, noFaults) :: os) =
@@ -1583,8 +1537,7 @@ theorem mrun_inv {r : RotCfg}
       · rw [if_neg hu]
         exact hlb o (List.mem_cons_of_mem _ ho) hou
     exact ih _ _ _ hstep (fun o ho => hpl o (List.mem_cons_of_mem _ ho)) hmono' hfbr'
-      (fun hn pre c now' fl' post hops hca =>
-        htsd hn ((op, now, noFaults) :: pre) c now' fl' post (by rw [hops]; rfl) hca) hhead' hlb'
+      hhead' hlb'
 
 theorem minv_init (cfg : Cfg) (r : RotCfg) (hr : cfg.rot = some r) :
     MInv r 0 (init cfg []) ⟨Abs.init, false, cfg.append⟩ :=
@@ -1593,12 +1546,12 @@ theorem minv_init (cfg : Cfg) (r : RotCfg) (hr : cfg.rot = some r) :
 /-- **the invariant holds after every multi-run history** -/
 theorem multi_run_inv (cfg : Cfg) (r : RotCfg) (hr : cfg.rot = some r)
     (ops : List (Op × Nat × Faults))
-    (hm : FV.FlwA.MultiRun cfg.rot ops) (htsd : TsdGuard cfg r ops) :
+    (hm : FV.FlwA.MultiRun cfg.rot ops) :
     ∃ t, MInv r t (runOps (init cfg []) ops)
       (MAbs.run cfg.rot ⟨Abs.init, false, cfg.append⟩ ops) := by
   obtain ⟨h1, h2, h3⟩ := hm
   rw [hr] at h1 ⊢
-  exact mrun_inv ops (init cfg []) _ 0 (minv_init cfg r hr) h1 h2 h3 htsd
+  exact mrun_inv ops (init cfg []) _ 0 (minv_init cfg r hr) h1 h2 h3
     (fun _ _ _ act h => by cases h) (fun _ _ _ => Nat.zero_le _)
 
 /-! ### what a reader sees -/
@@ -1651,7 +1604,7 @@ theorem MInv.view {r : RotCfg} {t : Nat} {s : St} {ma : MAbs} (h : MInv r t s ma
     rw [Abs.files, if_pos hI.started, lastL_append_singleton, hcur]
   · have hv : viewFiles s = parts s.dir := by simp [viewFiles, hnone]
     rw [hv]
-    rcases hg with ⟨hd, ha⟩ | ⟨g, hgp, hI, -, -⟩
+    rcases hg with ⟨hd, ha⟩ | ⟨g, hgp, hI, -⟩
     · rw [hd, ha]
       have : Abs.init.files = [] := rfl
       rw [this]
@@ -1670,7 +1623,7 @@ theorem MInv.files_flat {r : RotCfg} {t : Nat} {s : St} {ma : MAbs} (h : MInv r 
     simp [Abs.files, hs, FV.FlwA.flat]
   rcases h with ⟨-, act, -, hI, -, -⟩ | ⟨-, -, hg⟩
   · exact hs hI.started
-  · rcases hg with ⟨-, ha⟩ | ⟨g, -, hI, -, -⟩
+  · rcases hg with ⟨-, ha⟩ | ⟨g, -, hI, -⟩
     · rw [ha]; rfl
     · exact hs hI.started
 
@@ -1787,7 +1740,7 @@ theorem MInv.rinv {r : RotCfg} {t : Nat} {s : St} {ma : MAbs} (h : MInv r t s ma
   rcases h with ⟨-, act, hact, hI, -, -⟩ | ⟨-, hnone, hg⟩
   · exact Or.inr ⟨act, hI, fun a' ha' => (by rw [hact] at ha'; cases ha'; rfl),
       fun hn => (by rw [hact] at hn; cases hn)⟩
-  · rcases hg with hg | ⟨g, hgp, hI, -, -⟩
+  · rcases hg with hg | ⟨g, hgp, hI, -⟩
     · exact Or.inl hg
     · exact Or.inr ⟨g, hI, fun a' ha' => (by rw [hnone] at ha'; cases ha'), fun _ => hgp⟩
 
@@ -2030,7 +1983,7 @@ theorem viewFiles_of_minvA {rot : Option RotCfg} {t : Nat} {s : St} {ma : MAbs}
   · exact FV.FlwA.view_of_inv hact hI
   · have hv : viewFiles s = parts s.dir := by simp [viewFiles, hnone]
     rw [hv]
-    rcases hg with ⟨hd, ha⟩ | ⟨g, hgp, hI, -, -⟩
+    rcases hg with ⟨hd, ha⟩ | ⟨g, hgp, hI, -⟩
     · rw [hd, ha]
       simp [Abs.files, Abs.init, parts, extAsc, rotatedAsc, Dir.get]
     · obtain ⟨f, -, hdata, hp⟩ := FV.FlwA.parts_of_inv hI
